@@ -22,13 +22,15 @@ REPO_SRC = []   # filled from harness/c18_sources.txt (one /repo-relative path p
 
 # harness CLASS names -> translated class names whose obligations they exercise
 HARNESS_TO_CLASSES = {
-    "Data": ["Data", "SharedContainer", "Shape"], "LabeledData": ["LabeledData", "Data", "SharedContainer"],
-    "KernelExpansion": ["KernelExpansion"], "ConcatenatedModel": ["ConcatenatedModel"],
+    "Data": ["Data", "SharedContainer", "Shape"], "LabeledData": ["LabeledData", "Data", "SharedContainer", "Shape"],
+    "LinearModelTanh": ["LinearModel"], "Classifier": ["Classifier", "LinearModel"],
     "BFGS": ["BFGS", "AbstractLineSearchOptimizer", "LineSearch"], "LBFGS": ["LBFGS", "AbstractLineSearchOptimizer", "LineSearch"],
     "CG": ["CG", "AbstractLineSearchOptimizer", "LineSearch"],
-    "ARDKernel": ["ARDKernelUnconstrained"], "ARDKernelUnconstrained": ["ARDKernelUnconstrained"],
-    "Ensemble": ["EnsembleImpl"], "CMA": ["CMA", "MultiVariateNormalDistribution"],
-    "ElitistCMA": ["ElitistCMA", "CMAChromosome", "Individual"],
+    "CMA": ["CMA", "MultiVariateNormalDistribution"], "CMSA": ["CMSA", "MultiVariateNormalDistribution"],
+    "ElitistCMA": ["ElitistCMA", "CMAChromosome", "Individual", "MultiVariateNormalDistributionCholesky"],
+    "BinaryRBM": ["RBM", "BinaryLayer"], "ModelKernel": ["ModelKernel", "ModelKernelImpl"],
+    "RealVector": ["vector"], "RealMatrix": ["matrix"], "CompressedRealMatrix": ["compressed_matrix", "compressed_matrix_impl", "MatrixStorage"],
+    "CARTree": ["CARTree", "Node"], "SimplexDownhill": ["SimplexDownhill"],
 }
 
 
@@ -195,6 +197,8 @@ def main():
     for r in results: byname.setdefault(r["name"], []).append(r)
     missing = [c for c in TS.REQUIRED if c not in byname]
     ck.oblige("translator finds every anchored class", not missing, "missing: " + ", ".join(missing))
+    dead = TS.dead_transient_entries(TS.ALL_CLASSES[0])
+    ck.oblige("transient table has no dead entries", not dead, "no such member: " + ", ".join(dead))
     failing = {}      # class name -> list of (kind, message, member)
     nob = 0
     for r in results:
@@ -208,8 +212,17 @@ def main():
     ck.notes["class_obligations"] = {"total": nob, "failing_classes": sorted(failing)}
     log("[C18] translator: %d classes, %d with failing obligations: %s" % (len(results), len(failing), ", ".join(sorted(failing))))
 
+    # ---- second, independent reading of the source: clang's AST for the anchored classes
+    rep = TS.ast_crosscheck(REPO, results, repo_includes(), os.path.join(tmpd, "ast"), jobs=4)
+    dis = [(c, m) for c, ok, m in rep if ok is False]
+    skp = [(c, m) for c, ok, m in rep if ok is None]
+    ck.oblige("translator agrees with the clang AST (data members, read/write member sequences) on %d anchored classes" % sum(1 for _, ok, _ in rep if ok),
+              not dis, "; ".join("%s: %s" % x for x in dis)[:1500])
+    ck.notes["ast_crosscheck"] = {"agree": [c for c, ok, _ in rep if ok], "disagree": dis, "skipped": skp}
+    if skp: log("[C18] AST cross-check skipped for: " + "; ".join("%s (%s)" % x for x in skp)[:600])
+
     # ---- monitor: round-trip harness
-    srcs = [os.path.join(ROOT, "harness", f) for f in HARNESS_SRC if os.path.exists(os.path.join(ROOT, "harness", f))]
+    srcs = [os.path.join(ROOT, "harness", f) for f in sorted(os.listdir(os.path.join(ROOT, "harness"))) if re.match(r"c18_.*\.cpp$", f)]
     exe, err = cxx_build("c18_roundtrip", srcs + repo_src(*read_sources()))
     hres = []
     cases = []
@@ -243,26 +256,47 @@ def main():
     bad = [h for h in bad if h["status"] != "SKIP"]
     reported = set()
     def covered_by(hcls):
-        return set(HARNESS_TO_CLASSES.get(hcls, [hcls]))
-    # monitor failures grouped by (class, observable)
+        base = re.sub(r"<.*$", "", hcls)
+        return set(HARNESS_TO_CLASSES.get(base, [base]))
+    # monitor failures: one violation per class when the class has broken obligations (the differences are
+    # attributed to them), otherwise one per (class, observable)
+    def obs_of(h):
+        if h["status"] != "DIFF": return h["status"]
+        return re.sub(r"\[[^\]]*\]", "", h["rest"].split(":")[0].strip())
     groups = {}
     for h in bad:
-        obs = h["rest"].split(":")[0].strip() if h["status"] == "DIFF" else h["status"]
-        groups.setdefault((h["cls"], h["var"]), []).append((h, obs))
-    for (cls, var), hs in sorted(groups.items()):
-        h, obs = hs[0]
-        related = [(c, m) for c in covered_by(cls) for m in failing.get(c, [])]
-        key = "serial:%s:%s:%s" % (cls, var, obs)
-        cf = ck.write_replay("case_%s_%s.txt" % (cls, var), "\n".join(x["case"] for x, _ in hs[:6]) + "\n")
-        rp = {"case_file": cf, "cases": [x["case"] for x, _ in hs[:6]], "observed": [x["case"] + " " + x["status"] + " " + x["rest"] for x, _ in hs[:6]],
-              "expected": "restored object identical to the original on every observable",
+        related = [(c, m) for c in sorted(covered_by(h["cls"])) for m in failing.get(c, [])]
+        gk = (h["cls"], "") if related else (h["cls"], obs_of(h))
+        groups.setdefault(gk, []).append(h)
+    def obl_key(c, m):
+        return {"rw": "read/write mismatch ", "cover": "missing ", "stale": "stale ", "translator": "translator ", "coqc": "coqc "}[m[0]] + m[2]
+    for (cls, ob), hs in sorted(groups.items()):
+        related = [(c, m) for c in sorted(covered_by(cls)) for m in failing.get(c, [])]
+        # distinct variants first, so that the replay shows the breadth
+        seen = set(); pick = []
+        for h in hs:
+            if (h["var"], h["fmt"]) not in seen and len(pick) < 8:
+                seen.add((h["var"], h["fmt"])); pick.append(h)
+        if related:
+            key = "serial:%s:%s" % (cls, "; ".join(sorted(set((c + " " if c != cls else "") + obl_key(c, m) for c, m in related))))
+        else:
+            key = "serial:%s:behaviour %s" % (cls, ob)
+        cf = ck.write_replay("case_%s_%s.txt" % (re.sub(r"\W", "_", cls), re.sub(r"\W", "_", ob) or "obligation"), "\n".join(x["case"] for x in pick) + "\n")
+        rp = {"case_file": cf, "cases": [x["case"] for x in pick], "observed": [x["case"] + " " + x["status"] + " " + x["rest"] for x in pick],
+              "failing_cases_total": len(hs), "variants": sorted(set(x["var"] for x in hs)),
+              "expected": "restored object identical to the original on every observable (exact comparison)",
               "broken_obligations": ["%s: %s" % (c, m[1]) for c, m in related],
               "replay_cmd": "python3 tools/c18.py --replay %s" % cf}
-        what = "round trip of %s (%s) changes behaviour: %s %s" % (cls, var, h["status"], h["rest"][:200])
+        h = pick[0]
+        what = "round trip of %s changes behaviour in %d cases (variants %s): e.g. %s -> %s %s" % (
+            cls, len(hs), ",".join(sorted(set(x["var"] for x in hs))[:6]), h["case"], h["status"], h["rest"][:160])
         if related:
-            what += " | broken obligation(s): " + "; ".join("%s: %s" % (c, m[1]) for c, m in related[:3])
+            what += " | broken obligation(s): " + "; ".join("%s: %s" % (c, m[1]) for c, m in related[:4])
+        else:
+            what += " | no translator obligation is broken for this class (state outside the streamed members, e.g. derived flags)"
         ck.violation(key, rp, what)
-        for c in covered_by(cls): reported.add(c)
+        for c in covered_by(cls):
+            if failing.get(c): reported.add(c)
     # failing obligations without a behavioural difference from the harness
     for cname, msgs in sorted(failing.items()):
         if cname in reported: continue
